@@ -238,6 +238,14 @@ func (r *timeconvRunner) Step(line string) (out []string) {
 		if pts < 0 && res != "discard" {
 			r.fail("handleData(pts=%d) was not dropped (outcome %s)", pts, res)
 		}
+		// direct oracle ("delivers every access unit"): the only refusal the client documents is a unit more than
+		// clientMaxDTSRTCDiff = 10 s ahead of the real-time clock; a unit that is less far ahead must never end the client
+		if rate > 0 && res == "toobig" {
+			ahead := new(big.Int).Sub(new(big.Int).Div(new(big.Int).Mul(big.NewInt(dts), big.NewInt(1000000000)), big.NewInt(rate)), big.NewInt(el))
+			if ahead.Cmp(big.NewInt(9500000000)) <= 0 {
+				r.fail("handleData refused a unit only %s ns ahead of the clock (DTS-RTC cap is 10 s): the client ends instead of delivering it", ahead.String())
+			}
+		}
 		return []string{"pace=" + res}
 
 	case "conv":
